@@ -800,6 +800,12 @@ class Dict(dict, base.Symbolic, pg_typing.CustomTyping):
     if base.treats_as_sealed(self):
       raise base.WritePermissionError('Cannot clear a sealed Dict.')
     value_spec = self._value_spec
+    if value_spec:
+      # NOTE: make sure that an empty dict is acceptable to the value spec (e.g.
+      # there are no required fields without default values) before anything is
+      # modified. Otherwise re-applying the value spec below would fail and
+      # leave this Dict empty.
+      value_spec.apply({}, allow_partial=base.accepts_partial(self))
     self._value_spec = None
     # Detach the removed values from object tree.
     for value in self.sym_values():
